@@ -14,7 +14,8 @@ SOFT = {"quick": 60, "thorough": 560}
 RULE = ("the 18 supported (x-kind, container-kind) pairs cycled; containers as in C01-C03; candidates x are built through "
         "feature points of the container (vertices, edge midpoints, face points, interior, carrier-outside points), displaced "
         "copies of those, sub-objects, partially overlapping and parallel-displaced objects, and random ones; oracle = exact "
-        "containment of every point of x; non-trivial = admitted; distinct by content hash")
+        "containment of every point of x; a tenth of the Point questions are two hash-alike lattice points (-1 against -2) asked "
+        "one after the other of one container object; non-trivial = admitted; distinct by content hash")
 PAIRS = ([("P", s) for s in ("L", "H", "S", "PL", "PG", "PH")] + [("S", s) for s in ("L", "H", "S", "PL", "PG", "PH")] +
          [("H", s) for s in ("L", "H", "PL")] + [("L", "PL"), ("PG", "PL"), ("PG", "PH")])
 REQUIRED_FUNCS = ("Line.__contains__", "Plane.__contains__", "Segment.__contains__", "HalfLine.__contains__",
